@@ -60,6 +60,16 @@ def pred_holds(validate, x: int) -> bool:
     return {"eq": x == c, "ne": x != c, "lt": x < c, "bit": bool((x >> c) & 1)}[kind]
 
 
+def site_pred_holds(desc: Desc, v: View, validate, sid: int) -> bool:
+    """the validate_arguments predicate of the callee evaluated for call site `sid`"""
+    kind, c = validate
+    if kind == "sig":
+        return bool(v.inputs.get(c, 0))
+    if kind == "nsig":
+        return not v.inputs.get(c, 0)
+    return pred_holds(validate, arg_value(desc, v, sid))
+
+
 def sites_of(desc: Desc, m: str) -> list[int]:
     return [s.sid for s in desc.sites.values() if s.callee == m]
 
@@ -114,7 +124,7 @@ def mon_c02(desc: Desc, views: list[View]) -> Optional[tuple[str, int]]:
 def validators_hold_for_active(desc: Desc, v: View) -> Optional[str]:
     for s in desc.sites.values():
         val = desc.bodies[s.callee].stmt.get("validate")
-        if val and active(desc, v, s.sid) and not pred_holds(val, arg_value(desc, v, s.sid)):
+        if val and active(desc, v, s.sid) and not site_pred_holds(desc, v, val, s.sid):
             return f"active call site {s.sid} of {s.callee} has argument {arg_value(desc, v, s.sid)} violating {val}"
     return None
 
@@ -210,7 +220,7 @@ def fully_enabled(desc: Desc, v: View, t: str) -> bool:
     for ch in desc.chains(t):
         m = desc.target(ch)
         val = desc.bodies[m].stmt.get("validate")
-        if val and all(available(desc, v, s) for s in ch) and not pred_holds(val, arg_value(desc, v, ch[-1])):
+        if val and all(available(desc, v, s) for s in ch) and not site_pred_holds(desc, v, val, ch[-1]):
             return False
     return True
 
